@@ -83,6 +83,17 @@ def cases(tier, rng):
             hists = [[rng.choice(BIN_SYMS) for _ in range(rng.randint(1, 6))] for _ in range(ns)]
             out.append("m%d %s" % (k, scenario(sock, hists, BIN_FIRSTS)))
             k += 1
+    # long histories on one connection: more than a thousand subscriptions active at once (duplicates and distinct), then more
+    for sock in ("PUB", "XPUB"):
+        for dup in (True, False):
+            hist = [("s", b"x" if dup else b"x%04d" % i_) for i_ in range(1100)] + [("s", b"T")] + [("u", b"x" if dup else b"x0000")] + [("s", b"Z")]
+            ops = ["attach a SUB", "feed a " + W.tok(b"".join(W.msg(sym_msg(h_)) for h_ in hist))]
+            ops += ["settle"] if sock == "PUB" else ["recv"] * (len(hist) + 1)
+            for f in (b"T1", b"Z1", b"x1", b"q"):
+                ops.append("send %s;7061796c6f6164" % W.tok(f))
+            ops.append("wire a")
+            out.append("m%d sock %s / %s" % (k, sock, " / ".join(ops)))
+            k += 1
     # XPUB applies a subscription message when the application receives it, exactly once - whatever publishes happen between
     # its arrival and that recv
     for first in ("s", "u"):
